@@ -27,6 +27,11 @@ def _truth(x):
     if isinstance(x, Bit):
         return SymBool(x.t)
     if isinstance(x, SymInt):
+        if x.aff is not None and x.aff[0] >= 0 and all(c > 0 for _, c in x.aff[1]):
+            # non-negative combination of bits: nonzero iff constant > 0 or some bit set
+            if x.aff[0] > 0:
+                return True
+            return SymBool(z3_or([t for t, _ in x.aff[1]]))
         return SymBool(x.t != 0)
     if isinstance(x, SymReal):
         return SymBool(x.t != 0)
@@ -211,6 +216,9 @@ class SA(np.ndarray):
 
     # -- methods numpy would route to C truthiness / numeric casts
     def astype(self, dtype, *a, **k):
+        if dtype is str or (isinstance(dtype, str) and dtype in ('str', 'U', '<U1')):
+            flat = [str(c) for c in self.view(np.ndarray).reshape(-1)]    # realises symbolic cells
+            return np.array(flat).reshape(self.shape)
         if not is_symbolic(self):
             if np.dtype(dtype) == object:
                 return self.copy()
